@@ -327,7 +327,7 @@ def _nonsingular(cfg, a, high, A, B, dims):
     return True
 
 
-def systematic_configs(seed=0, classes=None, variants=(True, False)):
+def systematic_configs(seed=0, classes=None, variants=(True, False), closed=False):
     """deterministic family: for every grid class two non-uniform grids with two cells per axis
     (sizes ascending / descending, so that first and last cell always differ) times every
     combination of velocity signs per axis - the inputs on which boundary corrections of one side,
@@ -357,9 +357,11 @@ def systematic_configs(seed=0, classes=None, variants=(True, False)):
                 cfg["faces"] = [[enc(x) for x in f] for f in faces]
                 dims = [2] * d
                 full = [4] * d
-                cfg["u"] = [nested(face_shape(dims, a), lambda ix, a=a: enc(signs[a] * rng.choice([1, 2]))) for a in range(d)]
-                cfg["uup"] = [nested(face_shape(dims, a), lambda ix, a=a: enc(signs[a] * rng.choice([1, 3]))) for a in range(d)]
-                cfg["D"] = [nested(face_shape(dims, a), lambda ix: enc(rng.choice([1, 2, 3]))) for a in range(d)]
+                # closed: coefficients vanish on the domain boundary (the one interior face per grid line carries them)
+                inner = lambda ix, a: not closed or (0 < ix[a] < dims[a])
+                cfg["u"] = [nested(face_shape(dims, a), lambda ix, a=a: enc(signs[a] * rng.choice([1, 2]) if inner(ix, a) else 0)) for a in range(d)]
+                cfg["uup"] = [nested(face_shape(dims, a), lambda ix, a=a: enc(signs[a] * rng.choice([1, 3]) if inner(ix, a) else 0)) for a in range(d)]
+                cfg["D"] = [nested(face_shape(dims, a), lambda ix, a=a: enc(rng.choice([1, 2, 3]) if inner(ix, a) else 0)) for a in range(d)]
                 cfg["beta"] = nested(dims, lambda ix: enc(rng.choice([0, 1, 2])))
                 cfg["gamma"] = nested(dims, lambda ix: enc(rng.choice([-2, -1, 0, 1, 2, 3])))
                 cfg["alpha"] = nested(dims, lambda ix: enc(rng.choice([1, 2, 3])))
@@ -372,7 +374,7 @@ def systematic_configs(seed=0, classes=None, variants=(True, False)):
                                   "c": nested(shp, lambda ix: enc(rng.choice([-1, 0, 1, 2]))), "periodic": False,
                                   "kind": "dirichlet"}
                 cfg["bc"] = bc
-                cfg["closed"] = False
+                cfg["closed"] = bool(closed)
                 cfg["systematic"] = True
                 out.append(cfg)
     return out
